@@ -28,7 +28,9 @@ def demo_cmd(seed, wt):
         p = os.path.join(seed, name)
         if os.path.exists(p):
             if name == 'demo.sh':
-                return 'sh %s' % p
+                with open(p) as fh:
+                    first = fh.readline()
+                return '%s %s' % ('bash' if 'bash' in first else 'sh', p)
             with open(p) as fh:
                 head = fh.read().split('\n')[:60]
             for ln in head:
